@@ -41,7 +41,8 @@ Env0(c) == [coinbase |-> c.env.coinbase, timestamp |-> c.env.timestamp, number |
             basefee |-> c.env.basefee, createBase |-> c.env.createBase,
             opaque |-> {c.env.opaque[i] : i \in 1..Len(c.env.opaque)},
             cheatAddrs |-> {c.env.cheatAddrs[i] : i \in 1..Len(c.env.cheatAddrs)},
-            cheats |-> CheatTable, oracle |-> c.env.oracle, assertMode |-> c.env.assertMode]
+            cheats |-> CheatTable, oracle |-> c.env.oracle, assertMode |-> c.env.assertMode,
+            symstore |-> {c.env.symstore[i] : i \in 1..Len(c.env.symstore)}, symmask |-> c.env.symmask]
 
 MapToSeq(f, R(_, _)) == LET ks == SetToSeq(DOMAIN f) IN [i \in 1..Len(ks) |-> R(ks[i], f[ks[i]])]
 RS(k, v) == [a |-> k[1], k |-> k[2], v |-> v]
@@ -76,7 +77,10 @@ StepTx == /\ m.status = "run"
 NextTx == /\ m.status = "done"
           /\ ~IsLast
           /\ ti' = ti + 1
-          /\ m' = [InitMachine(m.world, m.env, Cases[cid].txs[ti + 1]) EXCEPT !.ncreated = m.ncreated]
+          /\ LET tx == Cases[cid].txs[ti + 1]
+                 \* a message may come with its own block timestamp ("ts"); otherwise time stands still
+                 env == IF "ts" \in DOMAIN tx THEN [m.env EXCEPT !.timestamp = tx.ts] ELSE m.env
+             IN m' = [InitMachine(m.world, env, tx) EXCEPT !.ncreated = m.ncreated]
           /\ w0' = m.world
           /\ hist' = Append(hist, [ok |-> m.result.ok, kind |-> m.result.kind])
           /\ UNCHANGED <<cid, steps>>
